@@ -134,7 +134,14 @@ func run(c *vf.Ctx, name string, public, vault bool, nblocks, nval int) {
 			st.Descs = append(st.Descs, x.Desc)
 		}
 		txs := st.TxBytes()
-		rsp, err := prod.Produce(&rig.ProduceReq{Txs: txs, TS: ts, Connect: true, Confirms: -1, SignKey: 0})
+		// every fourth block the production slot runs out while the k-th candidate is being executed: what was
+		// executed is in the block, nothing else (both producers stop at the same candidate)
+		deadlineAt := 0
+		if no%4 == 1 && len(txs) > 1 {
+			deadlineAt = 1 + r.Intn(len(txs))
+			c.Count("blocks_cut_by_the_production_deadline", 1)
+		}
+		rsp, err := prod.Produce(&rig.ProduceReq{Txs: txs, TS: ts, Connect: true, Confirms: -1, SignKey: 0, DeadlineAtTx: deadlineAt})
 		c.Eval(1)
 		if vault && rsp != nil && len(rsp.Consensus) > 0 {
 			c.Count("blocks_with_voting_reward_winner", 1)
@@ -160,7 +167,7 @@ func run(c *vf.Ctx, name string, public, vault bool, nblocks, nval int) {
 			c.Violation("producer-stored-receipts-differ", fmt.Sprintf("%s block %d: receipts the producer stored differ from the ones it executed (%s)", name, no, pStored.Err), cd)
 		}
 		// (1) second producer from the same parent and candidate list: must build the identical block
-		r2, err := prod2.Produce(&rig.ProduceReq{Txs: txs, TS: ts, Connect: true, Confirms: -1, SignKey: 0})
+		r2, err := prod2.Produce(&rig.ProduceReq{Txs: txs, TS: ts, Connect: true, Confirms: -1, SignKey: 0, DeadlineAtTx: deadlineAt})
 		if err != nil {
 			c.Violation("producer2-died", fmt.Sprintf("%s block %d: %v", name, no, err), cd)
 			return
@@ -206,7 +213,7 @@ func run(c *vf.Ctx, name string, public, vault bool, nblocks, nval int) {
 		}
 		// (3) repetition on ONE node: a production run whose block is discarded, then validation of the block
 		if dAlive {
-			d1, err := dnode.Produce(&rig.ProduceReq{Txs: txs, TS: ts, Connect: false, Confirms: -1, SignKey: 0})
+			d1, err := dnode.Produce(&rig.ProduceReq{Txs: txs, TS: ts, Connect: false, Confirms: -1, SignKey: 0, DeadlineAtTx: deadlineAt})
 			if err != nil {
 				c.Violation("discard-node-died", fmt.Sprintf("%s block %d: %v", name, no, err), cd)
 				dAlive = false
